@@ -75,6 +75,13 @@ RECURSIVE MaxGroup(_), MaxGroupSeq(_, _)
 MaxGroupSeq(xs, j) == IF j > Len(xs) THEN 0 ELSE MaxI(MaxGroup(xs[j]), MaxGroupSeq(xs, j + 1))
 MaxGroup(e) == IF e.k = "grp" THEN MaxI(e.n, MaxGroup(e.x)) ELSE MaxGroupSeq(Kids(e), 1)
 
+\* named groups: a named group n is always called x1..1 (x followed by n ones); see the harness printer
+IsNamed(e) == e.k = "grp" /\ "named" \in DOMAIN e /\ e.named
+GroupName(n) == <<"x">> \o [j \in 1..n |-> "1"]
+RECURSIVE NamedGroups(_), NamedGroupsSeq(_, _)
+NamedGroupsSeq(xs, j) == IF j > Len(xs) THEN <<>> ELSE NamedGroups(xs[j]) \o NamedGroupsSeq(xs, j + 1)
+NamedGroups(e) == (IF IsNamed(e) THEN << <<GroupName(e.n), e.n>> >> ELSE <<>>) \o NamedGroupsSeq(Kids(e), 1)
+
 \* ----- fixed length in characters, or -1 (the reference notion used by look-behind) -----
 RECURSIVE FixLen(_), FixLenCat(_, _), FixLenAlt(_, _, _)
 FixLenCat(xs, j) == IF j > Len(xs) THEN 0
